@@ -126,7 +126,18 @@ def _more_models(ctx, first, k):
                 if ctx._check() != 'sat':
                     ctx.solver.pop()
                 # else keep the pin (nested scope, popped with the outer)
-            if ctx._check() == 'sat':
+            # unpinned reals: prefer exactly representable values
+            ctx.solver.push()
+            ctx.solver.set('timeout', 2500)
+            for c in ctx.inputs.values():
+                if z3.is_real(c):
+                    ctx.solver.add(z3.IsInt(c * 1024))
+            r = ctx._check()
+            ctx.solver.set('timeout', ctx.query_timeout_ms)
+            if r != 'sat':
+                ctx.solver.pop()
+                r = ctx._check()
+            if r == 'sat':
                 out.append(ctx.model_inputs(ctx.solver.model()))
         finally:
             # pop everything pushed in this round
@@ -162,6 +173,7 @@ def _prove_dyadic(ctx, prop):
         return verdict, inputs
     for den in (8, 1024, 2 ** 20):
         ctx.solver.push()
+        ctx.solver.set('timeout', 2500)
         try:
             ctx.solver.add(z3.Not(prop))
             for c in reals:
@@ -170,10 +182,20 @@ def _prove_dyadic(ctx, prop):
             if ctx._check() == 'sat':
                 return 'sat', ctx.model_inputs(ctx.solver.model())
         finally:
+            ctx.solver.set('timeout', ctx.query_timeout_ms)
             ctx.solver.pop()
     inputs = dict(inputs)
     inputs['__inexact__'] = True
     return verdict, inputs
+
+
+def _all_dyadic(inputs):
+    for v in inputs.values():
+        if isinstance(v, dict) and 'den' in v:
+            d = v['den']
+            if d & (d - 1) or d > 2 ** 40 or v.get('algebraic'):
+                return False
+    return True
 
 
 def eval_obs(obs, ctx, m):
@@ -340,6 +362,11 @@ def run_obligation(ob, seed=0):
                 rec['errors'].append('real() failed on %r: %s' % (
                     inputs, traceback.format_exc(limit=3)))
                 return
+            if not _all_dyadic(inputs):
+                # floats cannot carry this model exactly: a disagreement
+                # would say nothing about the encoding
+                rec['inexact_samples'] = rec.get('inexact_samples', 0) + 1
+                return
             rec['validated'] += 1
             ok = True
             why = None
@@ -467,6 +494,71 @@ def _worker(args):
                 'distinct_paths': 0, 'unknown_paths': 0, 'infeasible': 0}
 
 
+def _child(conn, task):
+    try:
+        conn.send(_worker(task))
+    except BaseException:
+        try:
+            conn.send({'name': '?', 'errors': [traceback.format_exc(limit=5)]})
+        except Exception:
+            pass
+    finally:
+        conn.close()
+
+
+def _run_pool(tasks, jobs, budget, obs):
+    ctxm = mp.get_context('fork')
+    pending = list(enumerate(tasks))
+    running = {}
+    recs = [None] * len(tasks)
+    while pending or running:
+        while pending and len(running) < jobs:
+            i, t = pending.pop(0)
+            pc, cc = ctxm.Pipe(False)
+            p = ctxm.Process(target=_child, args=(cc, t))
+            p.start()
+            cc.close()
+            running[i] = (p, pc, time.time(), t)
+        done = []
+        for i, (p, pc, t0, t) in running.items():
+            if pc.poll(0):
+                try:
+                    recs[i] = pc.recv()
+                except EOFError:
+                    recs[i] = None
+                p.join(5)
+                done.append(i)
+            elif not p.is_alive():
+                p.join()
+                done.append(i)
+            elif time.time() - t0 > budget:
+                p.terminate()
+                p.join(5)
+                if p.is_alive():
+                    p.kill()
+                recs[i] = _timeout_rec(obs[t[1]].name, budget)
+                done.append(i)
+        for i in done:
+            p, pc, t0, t = running.pop(i)
+            pc.close()
+            if recs[i] is None:
+                recs[i] = _timeout_rec(obs[t[1]].name, budget,
+                                       'worker died without a result')
+        if not done:
+            time.sleep(0.02)
+    return recs
+
+
+def _timeout_rec(name, budget, why=None):
+    return {'name': name, 'errors': [], 'paths': 0, 'feasible_paths': 1,
+            'claims': 0, 'discharged': 0, 'confirmed': [], 'known': [],
+            'mismatch': [], 'queries': 0, 'solver_s': 0, 'truncated': 1,
+            'unknown_claims': 0, 'validated': 0, 'samples': [],
+            'decisions': 0, 'distinct_paths': 0, 'unknown_paths': 0,
+            'infeasible': 0, 'exhausted': False,
+            'timeout': why or 'wall budget %ds exceeded' % budget}
+
+
 def main(modname, tier, seed=0, only=None, jobs=None):
     import importlib
     t0 = time.time()
@@ -477,12 +569,12 @@ def main(modname, tier, seed=0, only=None, jobs=None):
             if only is None or fnmatch.fnmatch(o.name, only)]
     jobs = jobs or int(os.environ.get('VERIF_JOBS', '16'))
     tasks = [(modname, i, tier, seed) for i in idxs]
-    if jobs > 1 and len(tasks) > 1:
-        ctxm = mp.get_context('fork')
-        with ctxm.Pool(min(jobs, len(tasks))) as pool:
-            recs = pool.map(_worker, tasks, chunksize=1)
-    else:
-        recs = [_worker(t) for t in tasks]
+    # watchdog: an obligation that exceeds its wall budget (a solver call
+    # that ignores its timeout, a runaway path explosion on modified code)
+    # is terminated and reported as inconclusive, never as success
+    budget = getattr(mod, 'OBLIGATION_WALL_S', {}).get(
+        tier, 240 if tier == 'quick' else 1800)
+    recs = _run_pool(tasks, jobs, budget, obs)
     extra = {}
     if hasattr(mod, 'extra_checks'):
         extra = mod.extra_checks(tier, seed) or {}
